@@ -156,6 +156,15 @@ def _repeat_commands(ctx):
             ctx.diverge("repeat:command-failed", {"kind": "repeat", "argv": argv}, detail="`verif %s` failed: %s" % (" ".join(argv[2:]), outs[0][1][-200:]))
 
 
+def _repository_tests(ctx):
+    """code -> spec on the repository's own test-suite: every Data object its tests build (from verif/tests/files) and every array those
+    objects return is validated by TLC against DataImpl.tla / Dataset.tla (harness/repotests.py)"""
+    from harness import repotests
+    info = repotests.validate(ctx, thorough=ctx.tier != "quick")
+    for t in range(info["traces_full"] + info["traces_observables_only"]):
+        ctx.nontriv("repository-test trace %d" % t)
+
+
 def _unbounded(ctx, cfg, expect_states):
     """histories of ANY length: under VIEW CacheView (object ids are names) the state graph of DataImpl.tla is finite -- every subset
     of the 12-request core menu is a cache content -- and TLC visits all of it: CacheCoherent in every state, CacheGrows /
@@ -189,6 +198,7 @@ def run(ctx):
         _replay_cfg(ctx, "MC_DataImpl_C18EmitEns", limit=1500, perturb="quantile-from-ensemble")
         _random_sequences(ctx, "C18Mix", 32, 10, 8)
         _repeat_commands(ctx)
+        _repository_tests(ctx)
     else:
         res = tlc.run("MC_DataImpl", "MC_DataImpl_C18QuickFixed", tag=ctx.pid + "_model", timeout_s=900, require_emit=False)
         ctx.add_tlc("MC_DataImpl_C18QuickFixed (all sequences <= 3, 16 datasets)", res, {"MaxLen": 3})
@@ -207,6 +217,7 @@ def run(ctx):
         _random_sequences(ctx, "C18Mix", 32, 60, 12)
         _random_sequences(ctx, "C18Quick", 16, 60, 12)
         _repeat_commands(ctx)
+        _repository_tests(ctx)
         ctx.exhaustive = True
     par.clean_workdirs()
 
